@@ -52,18 +52,26 @@ func cmdCheck(args []string) int {
 	fs := flag.NewFlagSet("check", flag.ExitOnError)
 	tier := fs.String("tier", envOr("VERIF_TIER", "quick"), "quick|thorough")
 	keep := fs.Bool("keep", false, "keep smt2 files")
-	fs.Parse(args)
+	// flags may precede or follow the property id
+	var flagArgs, posArgs []string
+	for i := 0; i < len(args); i++ {
+		a := args[i]
+		if strings.HasPrefix(a, "-") {
+			flagArgs = append(flagArgs, a)
+			if (a == "--tier" || a == "-tier") && i+1 < len(args) {
+				flagArgs = append(flagArgs, args[i+1])
+				i++
+			}
+		} else {
+			posArgs = append(posArgs, a)
+		}
+	}
+	fs.Parse(append(flagArgs, posArgs...))
 	if fs.NArg() != 1 {
 		fmt.Fprintln(os.Stderr, "usage: gvc check <property> [--tier quick|thorough]")
 		return 2
 	}
 	id := fs.Arg(0)
-	// flags may follow the property id
-	for i, a := range os.Args {
-		if a == "--tier" && i+1 < len(os.Args) {
-			*tier = os.Args[i+1]
-		}
-	}
 	verif := envOr("GVC_VERIF", "/verif")
 	repo := envOr("GVC_REPO", "/repo")
 	seed, _ := strconv.Atoi(envOr("VERIF_SEED", "0"))
